@@ -17,8 +17,8 @@ CLAIMS = {
             "Lean proof (T2 completeness, termination) + correspondence + leak oracle"),
     "C03": ("Proved for every reachable world: a box is released only while it exists, exactly one free event per release, a freed identity stays freed (so every allocation is released at most once in any history), nothing that exists points to a released box; allocated bytes go down by exactly the box size. Step-level theorems on every release site (value marked dead before its fields are released, free after drop, new_cyclic guard emits no drop). Not yet proved as a history theorem: 'each value dropped at most once' after caught panics (needs the isolation invariant, DESIGN.md §10); decided per run by the allocator oracle (double free, layout mismatch, callback on dead value) and the correspondence of ordered drop/free events.",
             "Lean proof (free-at-most-once over all histories, step theorems) + correspondence + allocator oracle + layout grid"),
-    "C04": ("Global invariant proved for every reachable world of the machine (any programs, callbacks, collections, injected panics, unwinding): the count of every box is >= the number of Cc pointers to it that exist (count_never_too_low); a box with count 0 / a freed box has no pointer to it; no pointer targets a freed box; a destroyed object is unreachable. Step-level theorems for clone/drop on the count (exactly +1/-1, last owner destroys in the same step whether buffered or not, listed objects only decremented). The upper half (count not above the pointers in panic-free histories) is decided per run by the harness count oracle (enumerates every Cc) and correspondence of strong_count after every op.",
-            "Lean step theorems + correspondence + count oracle"),
+    "C04": ("Proved for every reachable world of the machine (any programs, callbacks, collections, injected panics, unwinding): the count of every box is >= the number of Cc pointers to it that exist (count_never_too_low); a box with count 0 / a freed box has no pointer to it; no pointer targets a freed box. Proved for every world of every panic-free history (no unwinding step executed so far; callbacks, nested/automatic collections, resurrection, cleaners, new_cyclic all included): strong_count is EXACT, count = number of existing pointers (strong_count_exact; same induction over all operations and frame steps with both inequalities, plus two auxiliary invariants: table indices of allocation frames in range, slot-map free lists name empty slots), also stated for what the driver computes for a panic-free program (strong_count_exact_prog); a concrete reachable world after a caught panic with count > pointers shows the restriction is necessary (the property allows exactly that). Step-level theorems for clone/drop (exactly +1/-1, last owner destroys in the same step whether buffered or not, listed objects only decremented). 'Everything it solely owned is reclaimed before drop returns' is checked per run (ordered events) and by the count oracle.",
+            "Lean proof (count invariant, exact in panic-free histories, by induction over all micro-steps) + correspondence + count oracle"),
     "C05": ("Step-level theorems: finalized flag set before the call, pass skips finalized members, a pass that finalized re-buffers and drops nothing, objects created while finalizing are born finalized, no finalizer frames without the feature. 'Only on garbage' is C01's T1. Ordering over whole histories checked per run (ordered F/D events, neighbour-canary oracle inside finalizers).",
             "Lean step theorems + T1 + correspondence + finalizer oracle"),
     "C06": ("Termination of both tracing queues for every graph (fuel = #objects), pass cap of collect proved at frame level; safety/precision after resurrection are C01/C02 on the re-buffered state. Checked per run on resurrecting finalizer scripts.",
